@@ -24,10 +24,12 @@ uint64_t gdsii_real_from_double(double value) {
         u8_1 = 0x80;
         value = -value;
     }
-    const double fexp = 0.25 * log2(value);
-    double exponent = ceil(fexp);
-    if (exponent == fexp) exponent++;
-    const uint64_t mantissa = (uint64_t)(value * pow(16, 14 - exponent));
+    // Base-16 exponent such that value = f * 16^exponent with 1/16 <= f < 1.  It is derived from
+    // the exact binary exponent: log2() rounds values just below a power of 16 up to that power.
+    int binary_exponent;
+    frexp(value, &binary_exponent);
+    const double exponent = floor((binary_exponent + 3) / 4.0);
+    const uint64_t mantissa = (uint64_t)ldexp(value, 56 - 4 * (int)exponent);
     u8_1 += (uint8_t)(64 + exponent);
     const uint64_t result = ((uint64_t)u8_1 << 56) | (mantissa & 0x00FFFFFFFFFFFFFF);
     return result;
